@@ -30,17 +30,17 @@ import (
 const c04Site = "v2/restli/handler.go (ServeHTTP, receive, registerMethod*), tunnelling.go, restlicodec readers; client: http.go, collection.go, structs.go"
 
 type c04Req struct {
-	Where  string `json:"where"`
-	Method string `json:"method"`
-	Mount  string `json:"mount"`
-	Verb   string `json:"verb"`
-	URI    string `json:"uri"`
-	CT     string `json:"content_type,omitempty"`
-	Body   string `json:"body,omitempty"`
-	Status int    `json:"status,omitempty"`
+	Where   string `json:"where"`
+	Method  string `json:"method"`
+	Mount   string `json:"mount"`
+	Verb    string `json:"verb"`
+	URI     string `json:"uri"`
+	CT      string `json:"content_type,omitempty"`
+	Body    string `json:"body,omitempty"`
+	Status  int    `json:"status,omitempty"`
 	ResBody string `json:"response_body,omitempty"`
-	Invoked int   `json:"invoked"`
-	Note   string `json:"note,omitempty"`
+	Invoked int    `json:"invoked"`
+	Note    string `json:"note,omitempty"`
 }
 
 type c04 struct {
@@ -357,13 +357,13 @@ func (f *fakeTransport) RoundTrip(req *http.Request) (*http.Response, error) {
 }
 
 type c04Resp struct {
-	Where    string      `json:"where"`
-	Method   string      `json:"method"`
-	Status   int         `json:"status"`
-	Header   http.Header `json:"header"`
-	Body     string      `json:"body"`
-	Result   string      `json:"result"`
-	Note     string      `json:"note,omitempty"`
+	Where  string      `json:"where"`
+	Method string      `json:"method"`
+	Status int         `json:"status"`
+	Header http.Header `json:"header"`
+	Body   string      `json:"body"`
+	Result string      `json:"result"`
+	Note   string      `json:"note,omitempty"`
 }
 
 func (d *c04) feed(mi *methodInfo, args []reflect.Value, where string, status int, hdr http.Header, body string, mustFail bool, note string) {
